@@ -151,11 +151,11 @@ class ReadDecoder:
         return value
 
     def readInt31(self, data):
-        data.pop(0)
         int1 = data.pop(0)
         int2 = data.pop(0)
         int3 = data.pop(0)
-        return (int1 << 24) | (int1 << 16) | int2 << 8 | int3
+        int4 = data.pop(0)
+        return ((int1 & 0x7F) << 24) | (int2 << 16) | (int3 << 8) | int4
 
     def readListSize(self,token, data):
         size = 0
